@@ -65,6 +65,7 @@ void run_bake(uint64_t seed, const sk_mask* mask, sk_result* out, int alloc_mode
 void run_bake_sweep(uint64_t seed, const sk_mask* mask, sk_result* out);
 void run_bake_base(uint64_t seed, const sk_mask* mask, sk_result* out);
 void run_bake_diff(uint64_t seed, const sk_mask* mask, sk_result* out);
+void run_bake_adv(uint64_t seed, const sk_mask* mask, sk_result* out);
 void run_sm(uint64_t seed, const sk_mask* mask, sk_result* out);
 void run_cvc(uint64_t seed, const sk_mask* mask, sk_result* out);
 void run_pki(uint64_t seed, const sk_mask* mask, sk_result* out);
